@@ -141,20 +141,24 @@ def check(ctx):
     if not writes:
         raise AnchorMissing(f"{CL}:_process_one: no write-mode open")
     fmts = [n for n in cfg.nodes if n.kind == "stmt" and any(call_name(c) == "format_source" for c in calls_in(n.ast))]
+    # roles: the formatter's output and the text it was given
+    pdefs = df.all_defs(po)
+    FORMATTED = names_bound_to_call(po, lambda nm_: nm_ == "format_source", pdefs)
+    ORIGINAL = {unparse(c.args[0]) for n in fmts for c in calls_in(n.ast) if call_name(c) == "format_source" and c.args}
     for w in writes:
         wn = node_in(cfg, stmt_of(w))[0]
         dom = cfg.dominated(wn, lambda m: m in fmts)
         ctx.ob("R3", f"{CL}:_process_one", f"`{short(w)}` is reached only after format_source returned normally", dom, key="process_one|write-before-format", where=loc(w))
         facts = facts_at(cfg, wn)
         ft = facts_text(facts)
-        changed = any(f in ("not original == formatted", "original != formatted", "not formatted == original", "formatted != original") for f in ft)
+        changed = any((t in {f"{a_} == {b_}" for a_ in ORIGINAL for b_ in FORMATTED} | {f"{b_} == {a_}" for a_ in ORIGINAL for b_ in FORMATTED}) and not pol for t, pol in nfacts(cfg, wn))
         ctx.ob("R3", f"{CL}:_process_one", "the file is rewritten only if the text changed", changed, key="process_one|write-unchanged", where=loc(w), detail="; ".join(ft))
         nocheck = "not args.check" in ft and "not args.diff" in ft
         ctx.ob("R3", f"{CL}:_process_one", "--check / --diff never write", nocheck, key="process_one|write-in-check-mode", where=loc(w))
         # what is written is the formatter's output
         wstmt = stmt_of(w)
         wr = [c for c in calls_in(wstmt, local=False) if last_attr(c) == "write"] if isinstance(wstmt, ast.With) else []
-        ok = bool(wr) and all(unparse(c.args[0]) == "formatted" for c in wr)
+        ok = bool(wr) and all(unparse(c.args[0]) in FORMATTED for c in wr)
         ctx.ob("R3", f"{CL}:_process_one", "exactly the formatter's output is written", ok, key="process_one|written-value", where=loc(w))
     mn = cl.func("main")
     calls = [c for c in calls_in(mn) if call_name(c) == "_process_one"]
